@@ -96,8 +96,8 @@ Theorem C05_sroute_is_walk : forall r, sroute r -> walk r.
 Proof. exact sroute_walk. Qed.
 Print Assumptions C05_sroute_is_walk.
 
-(* 5. decoding.  With at least one customer, get_routes succeeds on every feasible binary vector and
-   returns the (node, time) lists  route_of ms = origins of the moves of ms, then the destination of
+(* 5. decoding.  get_routes succeeds on every feasible binary vector (with or without customers; nothing
+   selected -> no routes, see C05_decode_without_customer) and returns the (node, time) lists  route_of ms = origins of the moves of ms, then the destination of
    the last one,  of depot-to-depot chains `mss` that use every selected move exactly once.
    get_routes keeps following a chain THROUGH the depot when another selected move leaves the depot at
    exactly the arrival time, so a returned list may pass through node 0 (it is a `walk`, not always an
@@ -105,15 +105,15 @@ Print Assumptions C05_sroute_is_walk.
    C05_sound.  The order of the returned routes is part of the model (compared with the
    implementation) but not of this statement. *)
 Theorem C05_decode :
-  forall I x, Inv (ig I) -> NoDup (igrid I) -> pos_cc I -> (2 <= length (nodes (ig I)))%nat ->
+  forall I x, Inv (ig I) -> NoDup (igrid I) -> pos_cc I ->
     length x = num_variables I -> binary x -> Ax I x = rhs I ->
     exists mss : list (list var),
       get_routes I x = Ok (map route_of mss) /\
       Permutation (selected I x) (concat mss) /\ Forall walk mss /\
       Forall sroute (flat_map split_depot mss) /\ concat (flat_map split_depot mss) = concat mss.
 Proof.
-  intros I x HI Hg Hpos HN Hl Hb HA.
-  destruct (decode_of_local I (Inv_wf _ HI) Hpos x HN Hl) as (mss & E & Hp & Hw).
+  intros I x HI Hg Hpos Hl Hb HA.
+  destruct (decode_of_local I (Inv_wf _ HI) Hpos x Hl) as (mss & E & Hp & Hw).
   - apply local_iff; auto.
   - exists mss. repeat split; auto.
     + apply Forall_forall. intros r Hr. apply in_flat_map in Hr. destruct Hr as (ms & Hms & Hr).
@@ -123,17 +123,25 @@ Proof.
 Qed.
 Print Assumptions C05_decode.
 
-(* Without a customer the statement of C05_decode fails: for the depot-only instance with a depot
-   self-arc the all-zero vector is binary and feasible (A has no rows) and selects the empty route
-   set, but get_routes raises TypeError (np.lexsort of an empty key sequence) instead of returning [].
-   Replayed on the implementation by harness/props/c05.py (special instance 5). *)
+(* An empty selection decodes to no routes when there is no customer, and fails the visit assertion when
+   there is one (the early return added by /repo 101dd02; before it np.lexsort raised TypeError). *)
+Theorem C05_decode_empty_selection :
+  forall I x, length x = num_variables I -> selected I x = [] ->
+    get_routes I x = if Nat.leb (length (nodes (ig I))) 1 then Ok [] else Err AssertionError.
+Proof. exact get_routes_empty. Qed.
+Print Assumptions C05_decode_empty_selection.
+
+(* the customer-free case of C05_decode on a concrete instance: depot only with a depot self-arc; the
+   all-zero vector is binary and feasible (A has no rows) and decodes to the empty route set; selecting a
+   depot self-move decodes to that one-move route.  Replayed on the implementation by harness/props/c05.py. *)
 Definition depot_only : inst :=
   mkInst (mkGraph [10]%nat [mkNode 10 0 0 PInf] [((0, 0)%nat, mkArc 10 10 0 1)]) [1; 0].
-Example C05_decode_without_customer_refuted :
+Example C05_decode_without_customer :
   Inv (ig depot_only) /\ NoDup (igrid depot_only) /\ pos_cc depot_only /\
   length [0; 0; 0] = num_variables depot_only /\ binary [0; 0; 0] /\
   Ax depot_only [0; 0; 0] = rhs depot_only /\
-  get_routes depot_only [0; 0; 0] = Err TypeError.
+  get_routes depot_only [0; 0; 0] = Ok [] /\
+  get_routes depot_only [0; 1; 0] = Ok [[(0%nat, 0); (0%nat, 1)]].
 Proof.
   split.
   { change (ig depot_only) with (run Base [OpAddNode 10 0 0 PInf; OpAddArc 10 10 0 1] empty_graph).
@@ -143,7 +151,7 @@ Proof.
   { intros i j a H Hi Hj. simpl in H. destruct i as [|i]; [congruence|]. destruct j; simpl in H; discriminate. }
   split; [vm_compute; reflexivity|].
   split; [repeat constructor; auto|].
-  vm_compute. split; reflexivity.
+  vm_compute. repeat split; reflexivity.
 Qed.
 
 (* Positive customer-to-customer travel times are needed for C05_sound: with a zero-time cycle
@@ -245,7 +253,7 @@ Qed.
 (* the hypotheses of C05_sound / C05_decode / C05_complete hold on this instance; the plan is the single
    route 0 -> 1 -> 2 -> 0 with earliest times 0, 1, 3, 3, and its indicator vector is ex_x *)
 Example C05_example_hypotheses :
-  Inv (ig ex_inst) /\ pos_cc ex_inst /\ (2 <= length (nodes (ig ex_inst)))%nat /\
+  Inv (ig ex_inst) /\ pos_cc ex_inst /\
   NoDup (map fst (arcs (ig ex_inst))) /\
   vrptw_route (ig ex_inst) [1; 2]%nat = Some [(0%nat, 0); (1%nat, 1); (2%nat, 3); (0%nat, 3)] /\
   indicator ex_inst (moves_of [(0%nat, 0); (1%nat, 1); (2%nat, 3); (0%nat, 3)]) = ex_x /\
@@ -260,7 +268,6 @@ Proof.
   { intros i j a H Hi Hj. simpl in H.
     destruct i as [|[|[|i]]], j as [|[|[|j]]]; simpl in H; try discriminate; try congruence;
       inversion H; subst; simpl; lia. }
-  split; [simpl; lia|].
   split; [repeat constructor; simpl; intuition discriminate|].
   vm_compute. repeat split; reflexivity.
 Qed.
